@@ -213,7 +213,9 @@ pub fn run_one(env: &Env, index: u64, stats: &mut Stats) -> (Vec<Found>, u64, u6
             let (sc, c) = gen_screened(seed, &env.corpus, Bias::Sink, stats);
             // generated projects use nothing from the standard library: --no-std must change nothing for them
             let std_free = sc.family == "generated-project" && sc.faults.is_empty();
-            let la = props::check_c20a(&c, &env.preamble, std_free);
+            // the main file as it was before the storage faults (only when they changed it)
+            let base_main: Option<String> = sc.base.files.get(&c.main).filter(|t| c.files.get(&c.main).map(|now| now != *t).unwrap_or(false)).cloned();
+            let la = props::check_c20a(&c, &env.preamble, std_free, base_main.as_deref());
             if std_free {
                 stats.inc("probe.std_free_program_compared_with_and_without_no_std");
             }
@@ -234,7 +236,10 @@ pub fn run_one(env: &Env, index: u64, stats: &mut Stats) -> (Vec<Found>, u64, u6
             let found = la
                 .violations
                 .into_iter()
-                .map(|v| Found { violation: v, concrete: c.clone(), scenario: Some(sc.clone()), extra: J::obj().set("std_free", J::Bool(std_free)), outcome_events: la.main.events_json(8) })
+                .map(|v| Found { violation: v, concrete: c.clone(), scenario: Some(sc.clone()), extra: match &base_main {
+                    Some(b) => J::obj().set("std_free", J::Bool(std_free)).set("base_main", J::s(b)),
+                    None => J::obj().set("std_free", J::Bool(std_free)),
+                }, outcome_events: la.main.events_json(8) })
                 .collect();
             (found, c.fnv(), la.main.history_fnv())
         }
@@ -255,7 +260,10 @@ pub fn reproduces(prop: &str, c: &Concrete, extra: &J, preamble: &str, id: &str)
                 .unwrap_or_else(|| vec![1, 2]);
             props::check_c16(c, &seeds).0
         }
-        "C20" => props::check_c20a(c, preamble, extra.bool_of("std_free")).violations,
+        "C20" => {
+            let b = extra.get("base_main").and_then(|x| x.as_str()).map(|s| s.to_string());
+            props::check_c20a(c, preamble, extra.bool_of("std_free"), b.as_deref()).violations
+        }
         "C12" => crate::c12::reevaluate(c, extra),
         _ => Vec::new(),
     };
